@@ -49,6 +49,12 @@ pub fn raw_parts<'a>(s: &'a [u8], off: usize, n: usize) -> (r: &'a [u8])
     ensures r@ == s@.subrange(off as int, off + n),
 { unsafe { core::slice::from_raw_parts(s.as_ptr().add(off), n) } }
 
+/// `core::cmp::min` on usize (std's generic function cannot take an assumed specification over `T: Ord`); woven by `@rewrite` lines
+#[verifier::external_body]
+pub fn min_usize(a: usize, b: usize) -> (r: usize)
+    ensures r == (if a <= b { a } else { b }),
+{ core::cmp::min(a, b) }
+
 /// `core::slice::from_raw_parts(a.as_ptr(), n)` on an array field: the first n bytes (safety contract: n <= N)
 #[verifier::external_body]
 pub fn arr_prefix<'a, const N: usize>(a: &'a [u8; N], n: usize) -> (r: &'a [u8])
